@@ -260,12 +260,47 @@ fn oracle_spec(_c: &ByteCase, obs: &mut Obs) -> Result<(), Violation> {
     Ok(())
 }
 
+/// Byte strings around the sizes at which a size constant could matter (Program::MAX_SIZE = 10000 bytes, 2^16):
+/// `ops` one-byte ops with a Push every `push_every` ops, optionally cut `cut` bytes short.
+#[derive(Clone, Debug, Hash, serde::Serialize, serde::Deserialize)]
+pub struct LongBytes {
+    pub bytes: usize,
+    pub push_every: u8,
+}
+
+fn oracle_long(l: &LongBytes, obs: &mut Obs) -> Result<(), Violation> {
+    let mut ops: Vec<MOp> = Vec::new();
+    let mut len = 0usize;
+    let mut i = 0usize;
+    while len < l.bytes {
+        let push = l.push_every != 0 && i % (l.push_every as usize) == 0 && len + 9 <= l.bytes;
+        if push {
+            ops.push(MOp::PUSH(i as i64 - 5));
+            len += 9;
+        } else {
+            ops.push(MOp::POP);
+            len += 1;
+        }
+        i += 1;
+    }
+    let bytes = crate::model::asm::encode(&ops);
+    check_parse(&bytes, obs)?;
+    check_roundtrip(&ops, obs)?;
+    obs.label("long");
+    obs.nontrivial();
+    Ok(())
+}
+
+fn long_bytes() -> impl Strategy<Value = LongBytes> {
+    (prop_oneof![4 => 9_985usize..10_030, 2 => 65_520usize..65_560, 1 => 0usize..80_000], prop_oneof![Just(0u8), Just(1u8), Just(2u8), 3u8..40]).prop_map(|(bytes, push_every)| LongBytes { bytes, push_every })
+}
+
 pub fn property() -> Property {
     let pats = imm_patterns();
     let npat = pats.len();
     Property {
         id: "C13",
-        rule: "enumerated: all 256 opcode bytes (x every bit-walking / opcode-carrying immediate and every truncation), all 65,536 opcode pairs; generated: op sequences 0..60 and byte strings (random, mutated valid encodings, truncations). Non-trivial = a Push immediate contains a valid opcode byte, or the byte string is invalid/truncated, or an enumerated opcode/pair. Distinct = distinct case hash.",
+        rule: "enumerated: all 256 opcode bytes (x every bit-walking / opcode-carrying immediate and every truncation), all 65,536 opcode pairs; generated: op sequences 0..60 and byte strings (random, mutated valid encodings, truncations). Non-trivial = a Push immediate contains a valid opcode byte, or the byte string is invalid/truncated, or an enumerated opcode/pair. Distinct = distinct case hash. Plus byte strings of 9985..10030, ~2^16 and random up to 80000 bytes (one-byte ops with a Push every k ops) parsed and round-tripped.",
         assumptions: vec![
             "golden/opcodes.json + harness/src/model/ops.rs are the pinned opcode table of the pinned commit",
             "RefAsm (harness/src/model/asm.rs) is the reference codec",
@@ -331,6 +366,7 @@ pub fn property() -> Property {
                 },
                 |c: &BytesCase, obs| check_parse(&c.0, obs),
             ),
+            prop_sub("asm.long_programs", 200, 2_000, |_| long_bytes(), oracle_long),
             enum_sub("asm.spec_and_golden", |_| Box::new(std::iter::once(ByteCase(0))), oracle_spec),
         ],
     }
